@@ -11,7 +11,7 @@ def rows():
     out = []
     for d in sorted((ROOT / "seeded").iterdir()):
         m = json.loads((d / "meta.json").read_text())
-        caught = ", ".join(m["caught_by"]) if m["caught_by"] else "(reported as NOTE, see below)"
+        caught = ", ".join(m["caught_by"]) if m["caught_by"] else ("(not a violation as worded, see below)" if m["note"].startswith("NOT a violation") else "(reported as NOTE, see below)")
         out.append("| `%s` | %s | %s | %s |\n" % (m["id"], m["property"], m["needs_to_manifest"].replace("|", "/"), caught))
     return "".join(out)
 
